@@ -205,6 +205,11 @@ pub struct Doc {
     pub crlf: bool,
     /// tabs instead of four spaces, blank lines at the top
     pub tabs: bool,
+    /// a block comment of this many characters right after `package ...;` (pushes everything
+    /// that follows on that line to very large columns when the header is on one line)
+    pub col_pad: usize,
+    /// this many blank lines at the top (very large line numbers)
+    pub line_pad: usize,
 }
 
 fn render_doc_comment(doc: &Option<String>, out: &mut String, sep: &str) {
@@ -229,9 +234,19 @@ impl Doc {
             s.push('\n');
         }
         let hsep = if self.header_one_line { " " } else { "\n" };
+        for _ in 0..self.line_pad {
+            s.push('\n');
+        }
         s.push_str("package ");
         s.push_str(&self.pkg);
         s.push(';');
+        if self.col_pad > 0 {
+            s.push_str(" /*");
+            for _ in 0..self.col_pad {
+                s.push('x');
+            }
+            s.push_str("*/");
+        }
         s.push_str(hsep);
         for i in &self.imports {
             s.push_str("import ");
@@ -410,6 +425,10 @@ impl Doc {
         push(&|d| d.banner = None);
         push(&|d| d.crlf = false);
         push(&|d| d.tabs = false);
+        push(&|d| d.col_pad = 0);
+        push(&|d| d.line_pad = 0);
+        push(&|d| d.col_pad /= 2);
+        push(&|d| d.line_pad /= 2);
         push(&|d| d.oneway = false);
         for (i, m) in self.members.iter().enumerate() {
             match m {
@@ -683,7 +702,16 @@ fn gen_base_type(rng: &mut Rng, u: &Universe, imports: &[String], fwd: &[String]
             let i = rng.pick(imports);
             Ty::Named(i.rsplit('.').next().unwrap().to_owned())
         }
-        1 => Ty::Named(rng.pick(fwd).clone()),
+        1 => {
+            let f = rng.pick(fwd);
+            let parts: Vec<&str> = f.split('.').collect();
+            if parts.len() >= 3 && rng.pct(60) {
+                let from = rng.range(1, parts.len() - 2);
+                Ty::Named(parts[from..].join("."))
+            } else {
+                Ty::Named(f.clone())
+            }
+        }
         2 => Ty::Named(rng.pick(imports).clone()),
         3 => {
             let i = rng.pick(imports);
@@ -806,6 +834,12 @@ pub fn gen_header(rng: &mut Rng, u: &Universe, k: &GenKnobs) -> (Vec<String>, Ve
                 rng.pick(&imports).rsplit('.').next().unwrap().to_owned()
             }
             7 => format!("{}.{}", rng.pick(&u.pkgs), rng.pick(&u.names)),
+            9 => {
+                // declarations with a path that share a dotted tail: a.m.Foo, zz.m.Foo
+                let n = rng.pick(&u.names).clone();
+                let head = *rng.pick(&["a", "zz", "b.c"]);
+                format!("{head}.m.{n}")
+            }
             8 if !fwd.is_empty() => rng.pick(&fwd).clone(),
             _ => "Fwd".to_owned(),
         };
@@ -1028,6 +1062,9 @@ pub fn gen_doc(
         },
         crlf: rng.pct(k.p_crlf),
         tabs: rng.pct(k.p_block_comments / 2),
+        // sizes around 2^8, 2^12 and 2^16: packed positions, narrow integer types
+        col_pad: if rng.pct(k.p_heavy / 3 + 1) { *rng.pick(&[250usize, 260, 4090, 4200, 4200, 65530, 66000]) } else { 0 },
+        line_pad: if rng.pct(k.p_heavy / 6 + 1) { *rng.pick(&[250usize, 260, 4090, 4200, 66000]) } else { 0 },
     }
 }
 
